@@ -31,29 +31,38 @@ THEOREMS = ['C12_expand_shorthand', 'C12_interpolates_evenly_spaced',
             'C12_chain_zero_iff', 'C12_option_tokens_app',
             'C12_last_value_app', 'C12_like_written_zero_iff',
             'C12_like_written_local_zero_iff', 'C12_fill_array_read_locally',
+            'C12_fill_array_rep_read_locally',
             'C12_cell_card_zero_iff',
             'C12_plain_card_zero_iff', 'C12_conv_keys_not_skipped',
             'C12_written_volumes', 'C12_generated_converted_iff',
             'C12_lattice_elements_converted_iff_linked',
             'C12_imp_card_text', 'C12_void_card_text',
             'C12_void_card_text_sep',
-            'C12_nonvoid_card_text', 'C12_like_card_text',
+            'C12_nonvoid_card_text', 'C12_nonvoid_card_text_sep',
+            'C12_like_card_text',
             'C12_parse_deck_text_split']
 TRUSTED = [
-    'hand-written model coq/C12/Model.v + Text.v (modelled, tied by '
-    'execution only)',
-    'regex tokenisation of cards (cellcard.split, datacard.split, Card.content): '
-    'not modelled, the harness hands the model (material, geometry | LIKE n, '
-    'options) and the IMP entries it generated; the tie runs the real '
-    'tokenisation on the rendered text',
-    'float(token), datacard.to_float(token), normalize_float(token): tables filled by the harness from '
-    'Python; int()/round() of a float and x**y: coq/C12/Exec.v (binary64), '
-    'compared at 1e-9',
+    'hand-written model coq/C12/{Text,Model,Cards}.v: modelled, tied by '
+    'execution (tie:expand, tie:parse by two routes, tie:conv, tie:fill)',
+    'Card.content() (comment removal, white-space collapse, continuation '
+    'lines) and the block splitting of MIP: not modelled; the second route of '
+    'tie:parse hands the model the real content() strings of the cell and data '
+    'cards (cellcard.split, datacard.split, LIKE_RE ARE modelled: Cards.v)',
+    'float(token), datacard.to_float(token), normalize_float(token), the table '
+    'of TR cards: primitives of the model, tables filled by the harness from '
+    'the implementation; int()/round() of a float and x**y: coq/C12/Exec.v '
+    '(binary64), compared at 1e-9',
     'to_cos / normalize_transform (C04) stay symbolic in the model; '
-    'Exec.eval_tp reads them numerically only for 0/3/12 entries',
+    'Exec.eval_tp reads them numerically only for 0/2/3/12/13 entries',
     'get_ast (C11): geometry strings are carried through, the harness maps the '
     'parsed AST back to the generated geometry text',
-    'harness: generators, impl.T4File reader, PEG shim replacing TatSu',
+    'develop_lattice: not in the C12 model (swept by lattice_sweep; linked to '
+    "C06's model by C12_lattice_elements_converted_iff_linked, whose copied "
+    'attributes - element_cell - are defined on the C12 side and not tied)',
+    'the text of the VOLU lines (C01/C08): only the VOLU ids, the '
+    '(universe cell, container) comments and the NOTE bytes are tied',
+    'harness: generators, probe-point oracle (t4eval), impl.T4File reader, PEG '
+    'shim replacing TatSu',
 ]
 ASSUMPTIONS = [
     'importances are non-negative (C12_data_card_max_zero / '
@@ -61,12 +70,13 @@ ASSUMPTIONS = [
     'at least one cell of the deck is converted: a deck whose cells all have '
     'zero importance (not a runnable MCNP problem) stops with ValueError from '
     'max() of an empty sequence, no file is written (checked: all_zero_deck)',
-    'the first entry of an IMP data card starts with a digit (datacard.split '
-    'moves a leading ".", sign or non-numeric entry into the card name: '
-    '"imp:n .5" is read as 5; zero-ness is not affected)',
+    'C12_imp_card_text only: the first entry of an IMP data card starts with a '
+    'digit (datacard.split moves a leading ".", sign or non-numeric entry into '
+    'the card name: "imp:n .5" is read as 5; modelled in Cards.data_parts and '
+    'tied; zero-ness is not affected)',
     'no LIKE cycle (the code does not terminate); no jump (nJ) entries in IMP '
-    'cards for the deck-level theorems (the code keeps None, converts the '
-    'cell, and max(None, x) is a TypeError with two cards)',
+    'cards for the zero-iff theorems (the behaviour with jumps is proved '
+    'separately: C12_jumped_cell_kept, C12_importance_cards_jump_refused)',
     'IMP data cards have pairwise distinct names (C12_importance_cards_max); '
     'a repeated name replaces the earlier card (modelled and tied)',
 ]
@@ -1027,10 +1037,10 @@ def conversion_sweep(res, rng, n_decks, n_guard):
                         if m and not vol['fictive']:
                             pairs.append((int(m.group(1)), int(m.group(2))))
                     fill_cases.append(cpair(
-                        g.c_pcase(deck, (), result),
+                        g.c_pcase(deck, (), result, texts=False),
                         clist(cpair(cz(a), cz(b)) for a, b in pairs)))
                     fill_meta.append((deck, text))
-                cases.append(cpair(g.c_pcase(deck, (), result),
+                cases.append(cpair(g.c_pcase(deck, (), result, texts=False),
                                    clist(cz(k) for k in volu),
                                    copt(note, lambda l: clist(cz(k)
                                                               for k in l)),
@@ -1107,15 +1117,15 @@ def run(res, tier, seed, proofs_ok):
         mark('corpus')
         exhaustive_decks(res, quick)
         mark('exhaustive decks')
-        expand_ties(res, rng, 300 if quick else 3000, 200 if quick else 2000,
+        expand_ties(res, rng, 240 if quick else 3000, 160 if quick else 2000,
                     2 if quick else 3)
         mark('tie:expand')
-        parse_ties(res, rng, 220 if quick else 2000, 130 if quick else 1000)
+        parse_ties(res, rng, 160 if quick else 2000, 100 if quick else 1000)
         mark('tie:parse')
     coverage_obligation(res, cov)
     lattice_sweep(res, 30 if quick else 150, rng)
     mark('lattice sweep')
-    conversion_sweep(res, rng, 220 if quick else 1800, 40 if quick else 200)
+    conversion_sweep(res, rng, 160 if quick else 1800, 32 if quick else 200)
     mark('conversion sweep + tie:conv + tie:fill')
     res.extra['section_seconds'] = {
         name: round(t - marks[k][1], 1) for k, (name, t) in enumerate(marks[1:])}
